@@ -210,7 +210,7 @@ class Alph:
                      ('pi/2+1e-6', PI / 2 + 1e-6), ('pi-1e-6', PI - 1e-6)]
         self.a1 = land + alph.pick(alph.G_ANGLES, tier, seed, 4)
         # triples of angles: full cube, so a shorter ladder (generic letters from the first 6 of the pool)
-        land3 = land[:5] + ([] if q else [('-pi', -PI), ('2pi', 2 * PI), ('1e-9', 1e-9)])
+        land3 = land[:5] + ([] if q else [('-pi', -PI), ('2pi', 2 * PI)])
         self.a3 = land3 + alph.pick(alph.G_ANGLES[:6], tier, seed, 1)
         # two angles + more (matrix builders)
         self.a2 = land[:5] + alph.pick(alph.G_ANGLES[:6], tier, seed, 2)
@@ -349,7 +349,7 @@ def catalogue(tier, seed):
     # measured CPU ms per case (only used to balance the shards)
     W = {'SE3.RPY': 2.6, 'base.eul2tr': 2.0, 'base.eul2r': 2.0, 'SE3.Eul': 2.7, 'base.tr2jac': 2.4, 'SE3.__mul__': 2.0,
          'SE3.Ad': 3.7, 'base.det': 0.6, 'base.trinv': 1.5, 'base.tr2delta': 1.7, 'SE3.inv': 1.5, 'base.qpow': 1.5,
-         'SO3.__mul__': 2.0, 'SE2.__mul__': 1.5, 'base.trinv2': 1.0, 'base.cross': 0.6}
+         'SO3.__mul__': 2.0, 'SE2.__mul__': 1.5, 'sym.sin': 0.1, 'sym.cos': 0.1, 'sym.sqrt': 0.1, 'base.trinv2': 1.0, 'base.cross': 0.6}
 
     def add(func, name, groups, build, **kw):
         kw.setdefault('weight', W.get(func, 0.4))
@@ -395,6 +395,11 @@ def catalogue(tier, seed):
         add('SE3.T' + ax, 'array1', [A.len('d')], lambda v, tt=tt: (lambda: tt(np.array([v[0]]))))
         add('SE3.T' + ax, 'list2', [A.len('d0'), A.len('d1')], lambda v, tt=tt: (lambda: tt([v[0], v[1]])))
 
+    # ---- the type-dispatching wrappers themselves (spatialmath.base.symbolic; the anchored mechanism)
+    add('sym.sin', 'scalar', [A.ang('th')], lambda v: (lambda: base.sym.sin(v[0])))
+    add('sym.cos', 'scalar', [A.ang('th')], lambda v: (lambda: base.sym.cos(v[0])))
+    add('sym.sqrt', 'scalar', [A.len('v')], lambda v: (lambda: base.sym.sqrt(v[0])))      # negative letters: numeric raises, skipped
+
     # ---- transl / SE3(x,y,z)
     for owner, f in (('base.transl', base.transl), ('SE3.__init__', sm.SE3)):
         add(owner, 'xyz', [A.vec3('t')], lambda v, f=f: (lambda: f(v[0], v[1], v[2])))
@@ -429,6 +434,8 @@ def catalogue(tier, seed):
             add('SE3.RPY', c + sfx, a3(deg), lambda v, kw=kw, c=c: (lambda: sm.SE3.RPY(CONT[c](v), **kw)))
         orders = ['zyx', 'xyz', 'yxz'] + ([] if tier == 'quick' else ['vehicle', 'arm', 'camera'])
         for order in orders:
+            if deg and order in ('vehicle', 'arm', 'camera'):
+                continue
             for c in (['list'] if (deg or order not in ('xyz', 'yxz')) else ['list', 'array']):
                 add('SE3.RPY', '%s,order=%s%s' % (c, order, sfx), a3(deg),
                     lambda v, kw=kw, c=c, order=order: (lambda: sm.SE3.RPY(CONT[c](v), order=order, **kw)))
@@ -609,6 +616,25 @@ def catalogue(tier, seed):
         for c in ('list', 'tuple', 'array'):
             add(cname + '.__mul__', 'pose*point:' + c, [opg('A'), pg()],
                 lambda v, ctor=ctor, n=np_, c=c: (lambda X=ctor(v[:n]): X * CONT[c](v[n:])), subsets=psub)
+    # sequences: 2-valued x 1, 1 x 2-valued, 2 x 2 (the arms of SMPose._op2), 2-valued pose x point
+    def seq(ctor, ps):
+        return prep(lambda: ctor(ps[0]).__class__([ctor(p) for p in ps]))
+    for cname in ('SE3', 'SO3'):
+        np_, ctor, dim = ops[cname]
+        opg = (lambda n: A.op(n, 5)) if np_ == 5 else (lambda n: Group(n, 'ang', 2, [(nm, (v[0], v[1])) for nm, v in A.op5]))
+        one, zero = '1' * np_, '0' * np_
+        add(cname + '.__mul__', 'pose2*pose', [opg('A'), opg('B'), opg('C')],
+            lambda v, ctor=ctor, n=np_: (lambda X=seq(ctor, [v[:n], v[n:2 * n]]), Y=ctor(v[2 * n:]): X * Y),
+            subsets=[one * 3, one + zero + one, zero + zero + one, one + one + zero])
+        add(cname + '.__mul__', 'pose*pose2', [opg('A'), opg('B'), opg('C')],
+            lambda v, ctor=ctor, n=np_: (lambda X=ctor(v[:n]), Y=seq(ctor, [v[n:2 * n], v[2 * n:]]): X * Y),
+            subsets=[one * 3, one + zero + one, zero + zero + one, one + zero + zero])
+        add(cname + '.__mul__', 'pose2*pose2', [opg('A'), opg('B'), opg('C')],
+            lambda v, ctor=ctor, n=np_: (lambda X=seq(ctor, [v[:n], v[n:2 * n]]), Y=seq(ctor, [v[2 * n:], v[:n]]): X * Y),
+            subsets=[one * 3, one + zero + zero, zero + one + one])
+        add(cname + '.__mul__', 'pose2*point:list', [opg('A'), opg('B'), A.vec3('p', short=True)],
+            lambda v, ctor=ctor, n=np_: (lambda X=seq(ctor, [v[:n], v[n:2 * n]]): X * list(v[2 * n:])),
+            subsets=[one + one + '111', one + one + '000', zero + zero + '111', one + zero + '100'])
     # products of objects made by the supported variant constructors
     add('SE3.__mul__', 'pose*pose:lib:Rx*Ry', [A.ang('a', 'a3'), A.ang('b', 'a3'), A.vec3('t', short=True)],
         lambda v: (lambda X=prep(sm.SE3.Rx, v[0]), Y=prep(sm.SE3.Ry, v[1], t=list(v[2:5])): X * Y),
